@@ -43,12 +43,14 @@ def configs(tier):
         out.append({"rbm": "purification", "nv": nv, "nh": nh, "na": na})
     for kind in ("positive", "complex", "mixed"):
         out.append({"rbm": "sample", "kind": kind, "nv": 2, "nh": 2, "na": 1})
+    out.append({"generic": "every shape"})
     return out
 
 
 def canaries(tier):
     return [({"rbm": "binary", "nv": 2, "nh": 1}, "spec-v-conditional-ignores-visible-bias"),
-            ({"rbm": "purification", "nv": 1, "nh": 1, "na": 1}, "spec-aux-from-new-v")]
+            ({"rbm": "purification", "nv": 1, "nh": 1, "na": 1}, "spec-aux-from-new-v"),
+            ({"generic": "every shape"}, "generic-wrong-contract")]
 
 
 def _c(rows):
@@ -56,6 +58,9 @@ def _c(rows):
 
 
 def run_config(ctx, cfg):
+    if cfg.get("generic"):
+        from contracts import gsets
+        return gsets.run(ctx, "C05")
     if cfg["rbm"] == "binary":
         return _binary(ctx, cfg)
     if cfg["rbm"] == "purification":
@@ -346,6 +351,9 @@ def _sample(ctx, cfg):
 
 
 def replay(o):
+    if o["cfg"].get("generic"):
+        from contracts import gsets
+        return gsets.replay("C05", o)
     from drivers import C05 as D
     env = (o.get("witness") or {}).get("env") or {}
     return D.replay(o["cfg"], env)
